@@ -123,6 +123,16 @@ Theorem C03g_link_make :
 Proof. exact link_make. Qed.
 Print Assumptions C03g_link_make.
 
+Theorem C03g_link_re_eq :
+  forall a b : RE, M_RE_eq a b = Some (re_eqb (conv_re a) (conv_re b)).
+Proof. exact link_re_eq. Qed.
+Print Assumptions C03g_link_re_eq.
+
+Theorem C03g_link_re_cmp :
+  forall a b : RE, M_RE_cmp a b = Some (rid (conv_re a) ?= rid (conv_re b)).
+Proof. exact link_re_cmp. Qed.
+Print Assumptions C03g_link_re_cmp.
+
 (* ---- recomputed attributes of a well-formed term are the cached ones; the nullable test is exact ---- *)
 
 Theorem C03g_is_nullable_cached :
@@ -190,3 +200,23 @@ Theorem C03g_make_root_wf :
        rid (conv_re e) = N.of_nat i /\ rnode (conv_re e) = conv_base k.
 Proof. exact g_make_root_wf. Qed.
 Print Assumptions C03g_make_root_wf.
+
+Theorem C03g_re_eq_iff :
+  forall a b : RE, M_RE_eq a b = Some true <-> RE_id a = RE_id b.
+Proof. exact g_re_eq_iff. Qed.
+Print Assumptions C03g_re_eq_iff.
+
+Theorem C03g_re_cmp_eq :
+  forall a b : RE, M_RE_cmp a b = Some Eq <-> M_RE_eq a b = Some true.
+Proof. exact g_re_cmp_eq. Qed.
+Print Assumptions C03g_re_cmp_eq.
+
+Theorem C03g_re_partial_cmp :
+  forall a b : RE, M_RE_partial_cmp a b = option_map Some (M_RE_cmp a b).
+Proof. exact g_re_partial_cmp. Qed.
+Print Assumptions C03g_re_partial_cmp.
+
+Theorem C03g_re_cmp_lt :
+  forall a b : RE, M_RE_cmp a b = Some Lt <-> (RE_id a < RE_id b)%nat.
+Proof. exact g_re_cmp_lt. Qed.
+Print Assumptions C03g_re_cmp_lt.
